@@ -80,6 +80,8 @@ type SpecDB struct {
 	Sigs    map[string]*SMTSig     // spec function signatures parsed from SMT
 	Files   []string
 	Assumptions []string // free-text "assume" notes declared in spec files
+	SortAlias map[string]string
+	LazySMT   [][2]string // (symbol, axiom): included only in scripts mentioning the symbol
 }
 
 type SMTSig struct {
@@ -155,10 +157,10 @@ func (db *SpecDB) loadFile(path string, defaultPkg string) error {
 				return fmt.Errorf("%s:%d: missing name", path, ln)
 			}
 			name := fields[0]
-			if strings.Contains(name, "/") || strings.HasPrefix(name, pkg+".") || isQualified(name) {
-				fs.Key = name
-			} else {
+			if isGo || pkg != "" && !isQualified(name) {
 				fs.Key = pkg + "." + name
+			} else {
+				fs.Key = name
 			}
 			mode := ""
 			for _, w := range fields[1:] {
@@ -190,6 +192,13 @@ func (db *SpecDB) loadFile(path string, defaultPkg string) error {
 		case "smt":
 			db.SMT = append(db.SMT, rest)
 			db.parseSig(rest)
+			continue
+		case "smt_lazy":
+			// smt_lazy SYMBOL (assert ...)
+			w := strings.SplitN(rest, " ", 2)
+			if len(w) == 2 {
+				db.LazySMT = append(db.LazySMT, [2]string{w[0], strings.TrimSpace(w[1])})
+			}
 			continue
 		case "smt_int":
 			db.SMTInt = append(db.SMTInt, rest)
@@ -480,7 +489,42 @@ func readSx(s string) (*sx, string) {
 
 func (db *SpecDB) parseSig(line string) {
 	n, _ := readSx(line)
-	if n == nil || len(n.list) < 4 {
+	if n == nil || len(n.list) < 3 {
+		return
+	}
+	switch n.list[0].atom {
+	case "declare-const":
+		db.Sigs[n.list[1].atom] = &SMTSig{Name: n.list[1].atom, Ret: n.list[2].String()}
+		return
+	case "define-sort":
+		if len(n.list) == 4 {
+			if db.SortAlias == nil {
+				db.SortAlias = map[string]string{}
+			}
+			db.SortAlias[n.list[1].atom] = n.list[3].String()
+		}
+		return
+	case "declare-datatypes":
+		if len(n.list[1].list) == len(n.list[2].list) {
+			for i, d := range n.list[1].list {
+				dt := d.list[0].atom
+				for _, ctor := range n.list[2].list[i].list {
+					if ctor.list == nil {
+						db.Sigs[ctor.atom] = &SMTSig{Name: ctor.atom, Ret: dt}
+						continue
+					}
+					sig := &SMTSig{Name: ctor.list[0].atom, Ret: dt}
+					for _, acc := range ctor.list[1:] {
+						sig.Args = append(sig.Args, acc.list[1].String())
+						db.Sigs[acc.list[0].atom] = &SMTSig{Name: acc.list[0].atom, Args: []string{dt}, Ret: acc.list[1].String()}
+					}
+					db.Sigs[sig.Name] = sig
+				}
+			}
+		}
+		return
+	}
+	if len(n.list) < 4 {
 		return
 	}
 	switch n.list[0].atom {
@@ -498,11 +542,15 @@ func (db *SpecDB) parseSig(line string) {
 			}
 		}
 		db.Sigs[sig.Name] = sig
-	case "declare-const":
 	}
-	if n.list[0].atom == "declare-const" && len(n.list) == 3 {
-		db.Sigs[n.list[1].atom] = &SMTSig{Name: n.list[1].atom, Ret: n.list[2].String()}
+}
+
+// expandSort resolves define-sort aliases.
+func (db *SpecDB) expandSort(s string) string {
+	if a, ok := db.SortAlias[s]; ok {
+		return a
 	}
+	return s
 }
 
 // loadSpecs reads /verif/spec/*.rvc and every zz_contracts_verif.go under repoDir.
